@@ -45,6 +45,7 @@ def make_module(with_raw_sense=True):
             m.contexts.append(self)
 
         def set_targetname(self, t):
+            m.calls.append(("set_targetname", t))
             self.targetname = t
 
         def set_session_type(self, t):
